@@ -154,9 +154,17 @@ func Build(f File) *descriptorpb.FileDescriptorProto {
 	for _, e := range f.Enums {
 		fd.EnumType = append(fd.EnumType, buildEnum(e))
 	}
-	for _, s := range f.Services {
+	for si, s := range f.Services {
 		sd := &descriptorpb.ServiceDescriptorProto{Name: proto.String(s.Name)}
-		for _, m := range s.Methods {
+		for mi, m := range s.Methods {
+			if m.Comment != "" {
+				// leading comment of the rpc, as protoc would record it (the templates copy it into the stubs)
+				if fd.SourceCodeInfo == nil {
+					fd.SourceCodeInfo = &descriptorpb.SourceCodeInfo{}
+				}
+				fd.SourceCodeInfo.Location = append(fd.SourceCodeInfo.Location, &descriptorpb.SourceCodeInfo_Location{
+					Path: []int32{6, int32(si), 2, int32(mi)}, Span: []int32{int32(10 + 3*mi), 2, 40}, LeadingComments: proto.String(m.Comment)})
+			}
 			md := &descriptorpb.MethodDescriptorProto{
 				Name:       proto.String(m.Name),
 				InputType:  proto.String(qualify(f.Package, m.In)),
